@@ -72,6 +72,59 @@ def encodings(codes):
     return out
 
 
+def composed(codes, depth=2, counter=None):
+    """recursively partition and wrap the map with the structural operators -> list of (label, decls, type_expr, expected)"""
+    counter = counter if counter is not None else [0]
+    E = expect_of(codes)
+
+    def fresh(prefix):
+        counter[0] += 1
+        return '%s%d' % (prefix, counter[0])
+    out = []
+    n = fresh('T')
+    out.append(('inline', '', body(codes), E))
+    out.append(('alias', 'type %s = %s;\n' % (n, body(codes)), n, E))
+    n2 = fresh('I')
+    out.append(('iface', 'interface %s %s\n' % (n2, body(codes)), n2, E))
+    if depth <= 0:
+        return out
+    res = list(out)
+    # wrappers around a sub-encoding
+    for lab, d, t, e in composed(codes, depth - 1, counter)[:3]:
+        res.append(('Partial<%s>' % lab, d, 'Partial<%s>' % t, {k: (False if not _is_getter(codes, k) else e[k]) for k in e}))
+        res.append(('Required<%s>' % lab, d, 'Required<%s>' % t, {k: True for k in e}))
+        res.append(('(%s)' % lab, d, '(%s)' % t, e))
+        a = fresh('A')
+        res.append(('alias-of(%s)' % lab, d + 'type %s = %s;\n' % (a, t), a, e))
+        keys = list(e)
+        if len(keys) >= 2:
+            res.append(('Omit<%s>' % lab, d, "Omit<%s, '%s'>" % (t, keys[0]), {k: e[k] for k in keys[1:]}))
+            res.append(('Pick<%s>' % lab, d, "Pick<%s, '%s'>" % (t, keys[0]), {keys[0]: e[keys[0]]}))
+        o = fresh('O')
+        res.append(('indexed(%s)' % lab, d + 'interface %s {{ p: %s }}\n' % (o, t), "%s['p']" % o, e))
+    # splits
+    if len(codes) >= 2:
+        for cut in range(1, len(codes)):
+            A, B = codes[:cut], codes[cut:]
+            for la, da, ta, ea in composed(A, depth - 1, counter)[:4] + [x for x in composed(A, depth - 1, counter) if x[0].startswith(('Partial', 'Required'))][:2]:
+                for lb, db, tb, eb in composed(B, depth - 1, counter)[:3] + [x for x in composed(B, depth - 1, counter) if x[0].startswith(('Partial', 'Required'))][:2]:
+                    e = dict(ea); e.update(eb)
+                    res.append(('%s & %s' % (la, lb), da + db, '%s & %s' % (ta, tb), e))
+            # extends: parent must be a name
+            for la, da, ta, ea in composed(A, 0, counter)[1:]:
+                i = fresh('X')
+                e = dict(ea); e.update(expect_of(B))
+                res.append(('extends(%s)' % la, da + 'interface %s extends %s %s\n' % (i, ta, body(B)), i, e))
+    return res
+
+
+def _is_getter(codes, key):
+    for c in codes:
+        if MEMBERS[c][1] == key:
+            return MEMBERS[c][3] == 'getter'
+    return False
+
+
 def module_src(expect_tag, expected, decls_before, call, decls_after, scope='top', shadow=''):
     head = '// %s %s\n' % (expect_tag, json.dumps(expected).replace('{', '{{').replace('}', '}}'))
     imp = "import {{ defineComponent }} from 'vue';\n"
